@@ -43,7 +43,16 @@ def mass_specs(draw):
 
 
 def make_masses(shape, mass):
-    """Equal-mass non-negative integer-valued pair (sums exactly equal)."""
+    """Equal-mass non-negative pair (sums exactly equal): integer-valued, optionally scaled by a
+    power of two `2**amp_exp` (exact), e.g. distributions of small total mass."""
+    a, b = _make_masses(shape, mass)
+    e = mass.get("amp_exp", 0)
+    if e:
+        a, b = a * 2.0 ** e, b * 2.0 ** e
+    return a, b
+
+
+def _make_masses(shape, mass):
     rng = np.random.default_rng(mass["pseed"])
     n = int(np.prod(shape))
     kind = mass["kind"]
@@ -166,8 +175,10 @@ def make_options(o):
         opts["L"] = o["L"]
     if o["method"] == "bregman_adaptive":
         opts["bregman_update"] = _bregman_update(o.get("update_every", 1))
-    if o["linear_solver"] in ("amg", "cg"):
+    if o["linear_solver"] in ("amg", "cg") and o.get("lso", "tight") == "tight":
         opts["linear_solver_options"] = {"atol": 1e-12, "rtol": 1e-12, "maxiter": 400}
+    if o.get("homogeneous") and o["method"] == "bregman_adaptive":
+        opts["bregman_homogeneous"] = True
     return opts
 
 
@@ -198,6 +209,9 @@ def capture_solve(w1):
 
     def ls(matrix, rhs, *a, **k):
         out = orig_ls(matrix, rhs, *a, **k)
+        if "first_solution" not in cap:
+            # the initial Darcy solve (unit mobility): never affected by degenerate face weights
+            cap["first_solution"] = np.array(out[0], copy=True)
         try:
             m = max(float(np.abs(rhs).max()), float(np.abs(out[0]).max()))
             if np.isfinite(m):
@@ -235,7 +249,21 @@ class InjectedFault(RuntimeError):
     pass
 
 
-def inject_fault(w1, at_call, point="linear_solve"):
+class CustomFault(Exception):
+    """An exception type of the caller's own (not derived from RuntimeError / ValueError)."""
+
+
+FAULT_TYPES = {
+    "runtime": None,  # InjectedFault (a RuntimeError)
+    "memory": MemoryError,
+    "custom": CustomFault,
+    "floating": FloatingPointError,
+    "linalg": np.linalg.LinAlgError,
+    "type": TypeError,
+}
+
+
+def inject_fault(w1, at_call, point="linear_solve", exc="runtime"):
     """One-shot exception in the `at_call`-th call (counted from 0) of an inner step of the solver:
     the linear solve (call 0 = initial Darcy solve, outside the iteration), the mobility / face-weight
     computation, the Anderson mixing or the evaluation of the cost.  Bound methods are wrapped on the
@@ -248,7 +276,8 @@ def inject_fault(w1, at_call, point="linear_solve"):
             state["n"] += 1
             if i == at_call and not state["fired"]:
                 state["fired"] = True
-                raise InjectedFault(f"injected failure of {point} call {i}")
+                cls = FAULT_TYPES.get(exc) or InjectedFault
+                raise cls(f"injected failure of {point} call {i}")
             return orig(*a, **k)
         return wrapped
 
